@@ -155,7 +155,7 @@ func (x *Exec) step(fr *Frame, st *State, in ssa.Instruction) {
 			}
 			val = t
 		}
-		fr.rets = append(fr.rets, retInfo{st: st.clone(), val: val})
+		fr.rets = append(fr.rets, retInfo{st: st.clone(), val: val, blk: i.Block().Index})
 	case *ssa.Panic:
 		x.panicInstr(fr, st, i)
 	default:
@@ -710,7 +710,7 @@ func (x *Exec) mapValWf(mt *types.Map, l *LeafInfo, name string, st *State) {
 	}
 	x.wfDone[name] = true
 	m, k := x.em.fresh("wfm"), x.em.fresh("wfk")
-	x.em.items = append(x.em.items, item{line: fmt.Sprintf("(assert (forall ((%s Int) (%s %s)) (! (and (<= 0 (select (select %s %s) %s)) (<= (select (select %s %s) %s) %s)) :pattern ((select (select %s %s) %s)))))",
+	x.em.items = append(x.em.items, item{glob: true, line: fmt.Sprintf("(assert (forall ((%s Int) (%s %s)) (! (and (<= 0 (select (select %s %s) %s)) (<= (select (select %s %s) %s) %s)) :pattern ((select (select %s %s) %s)))))",
 		m, k, x.mapKeySort(mt), name, m, k, name, m, k, st.Frontier, name, m, k)})
 }
 
